@@ -731,7 +731,8 @@ func validFiles(rng *rand.Rand) map[string][]string {
 		"#NEXUS\nBEGIN TAXA;\n DIMENSIONS NTAX=3;\n TAXLABELS a b c;\nEND;\nBEGIN DATA;\n DIMENSIONS NTAX=2 NCHAR=4;\n FORMAT DATATYPE=DNA;\n MATRIX\n a ACGT\n b AC-T\n c AC-T\n ;\nEND;\n")
 	// an empty command before DIMENSIONS (the declared NTAX still binds)
 	out["nexus"] = append(out["nexus"], "#NEXUS\nBEGIN DATA;\n;\n DIMENSIONS NTAX=3 NCHAR=4;\n FORMAT DATATYPE=DNA;\n MATRIX\n a ACGT\n b AC-T\n ;\nEND;\n")
-	out["partition"] = []string{"DNA, p1 = 1-4\nDNA, p2 = 5-12\n", "M1, c1 = 1-12/3\nM1, c2 = 2-12/3\nM2, c3 = 3-12/3\n", "WAG, g1 = 1-3, 7-9\nLG, g2 = 4-6,10-12\n", "DNA,p=1-6/2,7-12\nDNA,q=2-6/2\n"}
+	out["partition"] = []string{"DNA, p1 = 1-4\nDNA, p2 = 5-12\n", "M1, c1 = 1-12/3\nM1, c2 = 2-12/3\nM2, c3 = 3-12/3\n", "WAG, g1 = 1-3, 7-9\nLG, g2 = 4-6,10-12\n", "DNA,p=1-6/2,7-12\nDNA,q=2-6/2\n",
+		"DNA, p1 = 1-12/9223372036854775807\nDNA, p2 = 2-12\n", "DNA, p1 = 2-12/4611686018427387904, 1-1\nDNA, p2 = 3-12\n"}
 	return out
 }
 
